@@ -172,6 +172,9 @@ class ImplStore:
             c = to_val(j["scalar"])
             f = NPBIN[j["f"]]
             O[j["out"]] = f(c, O[j["obj"]]) if j.get("refl") else f(O[j["obj"]], c); return None
+        if op == "concat":
+            coord = None if j.get("coord") is None else np.array([to_float(x) for x in j["coord"]])
+            O[j["out"]] = dnp.concat([O[i] for i in j["objs"]], j["dim"], coord); return None
         if op == "set_attr":
             O[j["obj"]].attrs[j["key"]] = to_attr(j["value"]); return None
         if op == "set_dattr":
